@@ -93,5 +93,9 @@ error:
 cJSON *handle_info(const cJSON *json_rpc, const struct peer *p)
 {
 	cJSON *info = create_info();
+	if (unlikely(info == NULL)) {
+		return create_error_response_from_request(p, json_rpc, INTERNAL_ERROR, "reason", "not enough memory to create info object");
+	}
+
 	return create_result_response_from_request(p, json_rpc, info, "result");
 }
